@@ -203,7 +203,7 @@ theorem c12_no_upstream_leak (tr : Transport) (cfg : Cfg) (acc : Accept) (ctx : 
   rw [hr] at hspec
   simp only [Spec.ok, Bool.and_eq_true, List.all_eq_true, Bool.or_eq_true, bne_iff_ne, ne_eq,
     List.contains_eq_mem, decide_eq_true_eq, List.mem_filterMap] at hspec
-  obtain ⟨⟨_, hnames⟩, hwww⟩ := hspec
+  obtain ⟨⟨⟨_, hnames⟩, hwww⟩, _⟩ := hspec
   intro kv hkv
   refine ⟨hnames kv hkv, fun hk => ?_⟩
   rcases hwww kv hkv with hne | ⟨kv', hkv', hv⟩
@@ -214,6 +214,59 @@ theorem c12_no_upstream_leak (tr : Transport) (cfg : Cfg) (acc : Accept) (ctx : 
         rw [Prod.ext_iff]; exact ⟨by rw [hk, beq_iff_eq.mp hk'], (Option.some.inj hv).symm⟩
       rw [this]; exact hkv'
     · cases hv
+
+/-! ## CEL expressions and the error handlers of a rule -/
+
+/-- **Expression outcomes.** An authorization expression that evaluates to false is an authorization failure (403),
+one that cannot be evaluated for the concrete request / subject (missing attribute, index out of range, division
+by zero …) is "anything else" (500); likewise a pipeline step whose `if` condition cannot be evaluated fails with
+an error of the internal class, whatever the step would have done. -/
+theorem c12_cel_outcomes (step : Option Err) :
+    celAuthorize .holds = none ∧
+      (celAuthorize .fails).map Err.action = some (.respond .authz) ∧
+      (celAuthorize .error).map Err.action = some (.respond .internal) ∧
+      stepIf .holds step = step ∧ stepIf .fails step = none ∧
+      (stepIf .error step).map Err.action = some (.respond .internal) := by
+  refine ⟨rfl, by decide, by decide, rfl, rfl, ?_⟩
+  show some (Err.foreign).action = _
+  rw [action_foreign]
+
+/-- **First applicable handler.** Handlers whose condition does not hold are skipped; the first whose condition
+holds handles the failure; if none applies the failure itself reaches the translator. -/
+theorem c12_first_applicable_handler (hs₁ rest : List (Cel × Handler)) (hf : ∀ p ∈ hs₁, p.1 = .fails)
+    (h : Handler) (cause : Err) (ctx : Ctx) :
+    handleError (hs₁ ++ (.holds, h) :: rest) cause ctx = (h.exec cause ctx, none) ∧
+      handleError hs₁ cause ctx = (ctx, some cause) := by
+  constructor
+  · rw [handleError_skip hs₁ hf]; rfl
+  · have := handleError_skip hs₁ hf [] cause ctx
+    rw [List.append_nil] at this; rw [this]; rfl
+
+example : ∀ p ∈ [(Cel.fails, Handler.redirect 303 "/login"), (Cel.fails, Handler.default)], p.1 = .fails := by decide
+
+/-- **A handler condition that cannot be evaluated is an internal error.** Whatever the failure was, whatever
+handlers precede (not applicable) or follow, every service answers with the status of an internal error (500 unless
+configured), without `Location` and without challenge. -/
+theorem c12_handler_condition_error (tr : Transport) (cfg : Cfg) (acc : Accept) (hs₁ rest : List (Cel × Handler))
+    (hf : ∀ p ∈ hs₁, p.1 = .fails) (h : Handler) (cause : Err) (ctx : Ctx) (hv : cfg.valid = true) :
+    ∃ r, serveFailure tr.translator cfg acc (hs₁ ++ (.error, h) :: rest) cause ctx = .resp r ∧
+      r.status = (if cfg.ov.internal == 0 then 500 else cfg.ov.internal) ∧
+      ∀ kv ∈ r.headers, kv.1 ≠ "Location" ∧ kv.1 ≠ "Www-Authenticate" := by
+  have hh : handleError (hs₁ ++ (.error, h) :: rest) cause ctx = (ctx, some .foreign) := by
+    rw [handleError_skip hs₁ hf]; rfl
+  obtain ⟨r, hr, hs⟩ := c12_status tr cfg acc (plain .foreign) .internal hv action_foreign
+  refine ⟨r, by simp only [serveFailure, hh]; exact hr, hs, ?_⟩
+  rcases respond_inv hr with ⟨_, _, ha, _⟩ | ⟨c, _, rfl⟩
+  · exact absurd ha (by decide)
+  · intro kv hkv
+    simp only [challengeHeaders_eq, plain, List.map_nil, List.nil_append] at hkv
+    rcases bodyHeaders_keys _ _ kv hkv with hk | hk <;> rw [hk] <;> decide
+
+/-- **No error handler pipeline lets a failed request pass.** For every list of conditional handlers, every
+failure and every state of the request context, no service gives the positive answer. -/
+theorem c12_failure_never_allowed (tr : Transport) (cfg : Cfg) (acc : Accept) (hs : List (Cel × Handler))
+    (cause : Err) (ctx : Ctx) : serveFailure tr.translator cfg acc hs cause ctx ≠ .allowed :=
+  serveFailure_ne_allowed tr cfg acc hs cause ctx
 
 /-! ## error details -/
 
